@@ -145,7 +145,13 @@ def real_commands(rng, n_cmds, n_threads, with_findings=False):
     for t in range(n_threads):
         threads.append(Thread.run("batch%d" % t, run_batch, specs[t::n_threads]))
     for t in threads:
-        t.join()
+        try:
+            t.join()
+        except Exception as e:   # noqa
+            # a batch thread does nothing but run Commands and collect what they yield: if joining it fails, something the
+            # library started under it (a shell, its pipe threads) failed when the thread ended
+            viol.append("C18: the thread that ran a batch of Commands could not be joined cleanly: %s"
+                        % " | ".join(str(e).strip().splitlines()[:6])[:300])
     for sp, out, rc, toks in results:
         if out is None:
             viol.append("C18: Command %s failed to run: %s" % (sp["tag"], rc))
